@@ -208,8 +208,7 @@ func c12SendCase(r *Rng, i int) {
 	}
 }
 
-// c12ReplaySend re-runs a `c12send` line from its generating parameters; a line whose
-// program is not what the encoder produces for them (a mutated line) is not judged.
+// c12ReplaySend re-runs a `c12send` line from its generating parameters.
 func c12ReplaySend(args []string) (string, bool) {
 	if len(args) != 6 {
 		return "bad-op", true
@@ -229,9 +228,7 @@ func c12ReplaySend(args []string) (string, bool) {
 	} else {
 		judge()
 	}
-	if line != "c12send "+strings.Join(args, " ") {
-		return real, true
-	}
+	_ = line
 	return real, bad == ""
 }
 
